@@ -13,7 +13,7 @@ PLAN = {
     "C03": ["trivia", "block", "corpus"],
     "C04": ["strings", "literals", "corpus"],
     "C05": ["exprparens"],
-    "C08": ["block", "corpus"],
+    "C08": ["block", "sortrequires", "corpus"],
     "C09": ["blockrange", "sortrequires"],
     "C11": ["calls", "strings", "corpus"],
     "C12": ["sortrequires", "corpus"],
@@ -163,7 +163,7 @@ def src_sortrequires(tier, seed):
     for i, c in enumerate(raw):
         c["id"] = "sr%d" % i
         c["sweep"] = {"sort_requires": [True, False]}
-        c["want"] = ["sort", "reformat"]
+        c["want"] = ["sort", "reformat", "stmts"]
         cases.append(c)
     return cases, st
 
